@@ -274,3 +274,23 @@ func (d *reorderDriver) run(stop <-chan struct{}, maxBatches int) {
 		}
 	}
 }
+
+// ---- (c) the writer returns late ----
+
+// installLateWrite parks every sixth goroutine at write.done - after its frame has gone out,
+// before session.write returns to AsyncCall / Push / writeReply - for 2 ms: long enough for
+// the peer to handle the frame and for the reply to be read and bound while the caller is
+// still inside AsyncCall. The gate is removed at the end of the epoch (runEpoch).
+func (w *world) installLateWrite() {
+	var n int64
+	erpc.VerifSetGate(func(point string, s erpc.Session) {
+		if point != "write.done" || w.bySess[erpc.CtxSession(s)] == nil {
+			return
+		}
+		if atomic.AddInt64(&n, 1)%6 == 0 {
+			time.Sleep(2 * time.Millisecond)
+			atomic.AddInt64(&w.lateWrites, 1)
+		}
+	})
+	w.count("sched:latewrite")
+}
